@@ -8,6 +8,7 @@ import (
 	"fmt"
 	"math"
 	"strconv"
+	"time"
 )
 
 type vpVal struct {
@@ -86,6 +87,14 @@ func vpParam(name string) int {
 
 // vpSymbolic reports whether the harness runs inside the symbolic engine.
 func vpSymbolic() bool { return false }
+
+// vpReverseMapOrder: in the engine maps are iterated in the opposite order while on; natively
+// Go randomises the order anyway.
+func vpReverseMapOrder(on bool) {}
+
+// vpSteps: in the engine the number of SSA instructions executed so far; natively the
+// elapsed time in nanoseconds (used only as a coarse cost measure).
+func vpSteps() int64 { return time.Now().UnixNano() }
 
 func vpAssume(c bool) {
 	if !c {
